@@ -5,13 +5,40 @@ import json
 import traceback
 
 
+def start_reach_monitor(repo_src, outdir, tag):
+    """XV_COVER=<dir>: record which lines of the repository's sources the workload of this shard reaches
+    (sys.monitoring LINE events, each location disabled after its first hit, so the cost is negligible)"""
+    import atexit
+    mon = sys.monitoring
+    tool = mon.COVERAGE_ID
+    mon.use_tool_id(tool, 'xv-reach')
+    seen = {}
+
+    def on_line(code, line):
+        fn = code.co_filename
+        if fn.startswith(repo_src):
+            seen.setdefault(fn, set()).add(line)
+        return mon.DISABLE
+
+    mon.register_callback(tool, mon.events.LINE, on_line)
+    mon.set_events(tool, mon.events.LINE)
+
+    def dump():
+        os.makedirs(outdir, exist_ok=True)
+        with open(os.path.join(outdir, 'reach-%s.json' % tag), 'w') as f:
+            json.dump({os.path.relpath(k, repo_src): sorted(v) for k, v in seen.items()}, f)
+    atexit.register(dump)
+
+
 def main(argv):
     prop, tier, seed, shard, nshards, outfile = argv[:6]
     replay = argv[6] if len(argv) > 6 else None
     seed, shard, nshards = int(seed), int(shard), int(nshards)
     from xv import engine
-    import xdoctest
     repo_src = os.path.realpath(os.path.join(engine.REPO, 'src'))
+    if os.environ.get('XV_COVER') and not os.environ.get('XV_COVER_SITE'):
+        start_reach_monitor(repo_src + os.sep, os.environ['XV_COVER'], '%s-%d' % (prop, shard))
+    import xdoctest
     here = os.path.realpath(xdoctest.__file__)
     if not here.startswith(repo_src + os.sep):
         raise SystemExit('xdoctest imported from %s, not from %s' % (here, repo_src))
